@@ -14,8 +14,9 @@ behaviour. (No memory-ordering rule: all accesses are to one atomic location, wh
 of the Ordering argument, so weakening it would not break this property.)
 Not decided: i64 overflow at last+1; user-provided generators.
 """
+from ..inline import inline_view
 from ..mir import AnchorLost
-from ..util import df_of, enum_variant_of_operand, operand_path, path_last, one_call, switch_on, switch_edges, in_set, fn_short, uses_of_local
+from ..util import cmp_truth, df_of, enum_variant_of_operand, operand_path, path_last, one_call, switch_on, switch_edges, in_set, fn_short, uses_of_local
 
 GEN = "scylla::policies::timestamp_generator::MonotonicTimestampGenerator"
 TRAIT_M = "scylla::policies::timestamp_generator::TimestampGenerator::next_timestamp"
@@ -163,9 +164,7 @@ def r3(ctx, facts):
             if e is None:
                 r.fail("exit:unknown-expression", "unrecognised return expression %s" % b.fmt_rv(rv), span)
                 continue
-            gt = state.get(("bin", "Gt", e, last))
-            lt = state.get(("bin", "Lt", last, e))
-            ok = in_set(gt, {1}) or in_set(lt, {1})
+            ok = cmp_truth(state, "Gt", e, last) == 1
             r.instance("exit:clock-reading", ok, "returns %s; needs the region where it is strictly greater than `last`; state: %s" % (df.fmt_expr(e), df.fmt_state(state)), span)
     if n == 0:
         raise AnchorLost("compute_next never assigns its return place")
@@ -174,28 +173,35 @@ def r3(ctx, facts):
 def r5(ctx, facts):
     r = ctx.rule("R5", "generator consulted only as fallback of statement.get_timestamp(); frame timestamp is that result", floor=10)
     callers = [(b, bb) for b, bb in facts.callers_of(TRAIT_M) if b.crate == "scylla" and bb in b.live_blocks]
-    if len(callers) < 3:
-        raise AnchorLost("expected >=3 call sites of TimestampGenerator::next_timestamp, found %d" % len(callers))
+    if len(callers) < 1:
+        raise AnchorLost("no call site of TimestampGenerator::next_timestamp in the driver")
+    # outermost closures whose code (possibly through nested closures) asks the generator
+    tops = {}
     for cb, cbb in callers:
         key = fn_short(cb.path)
-        # the closure chain: cb = K0::{closure#0} ; K0 = P::{closure#N}
-        k0 = facts.body(cb.parent)
-        if cb.kind != "Closure" or k0 is None or k0.kind != "Closure":
-            r.fail("caller-shape:" + key, "next_timestamp() is called outside the `|| generator.map(|g| g.next_timestamp())` fallback closure", cb.term_span(cbb))
+        if cb.kind != "Closure":
+            r.fail("caller-shape:" + key, "next_timestamp() is called eagerly, outside a lazily evaluated fallback closure", cb.term_span(cbb))
             continue
-        p = facts.body(k0.parent)
-        if p is None:
-            r.fail("caller-shape:" + key, "cannot find the creator of " + k0.path, cb.term_span(cbb))
-            continue
+        k0 = cb
+        while True:
+            par = facts.body(k0.parent) if k0.parent else None
+            if par is None or par.kind != "Closure" or par.is_coroutine:
+                break
+            k0 = par
+        tops[k0.path] = k0
+    import json as _json
+    sites = []
+    for k0p in sorted(tops):
+        for p in facts.bodies.mentioning(_json.dumps(k0p)):
+            for bb in p.live_blocks:
+                for st in p.stmts(bb):
+                    if st[0] == "A" and st[2][0] == "agg" and st[2][1][0] == "closure" and st[2][1][1] == k0p:
+                        sites.append((p, (bb, st)))
+    if len(sites) < 3:
+        raise AnchorLost("expected >=3 places where the generator fallback closure is created, found %d" % len(sites))
+    for p, site in sites:
+        key = fn_short(p.path)
         df = df_of(p, facts)
-        site = None
-        for bb in p.live_blocks:
-            for st in p.stmts(bb):
-                if st[0] == "A" and st[2][0] == "agg" and st[2][1][0] == "closure" and st[2][1][1] == k0.path:
-                    site = (bb, st)
-        if site is None:
-            r.fail("fallback-closure-created:" + key, "closure %s is not created in its parent" % k0.path, p.span)
-            continue
         g = site[1][1][0]
         uses = uses_of_local(p, g)
         orelse = None
@@ -241,7 +247,7 @@ def r5(ctx, facts):
 
 
 def check(ctx):
-    facts = ctx.facts("default")
+    facts = inline_view(ctx.facts("default"))
     for fn in (r1_r2, r3, r5):
         try:
             fn(ctx, facts)
